@@ -167,8 +167,8 @@ var chanProtocol = map[string]tabEntry{
 	"queryer.(*MultiOpQueryer).Subscribe | local chan struct{} of queryer.(*MultiOpQueryer).Subscribe | make":                   {1, "failed: signals the closer that nobody is going to listen"},
 	"queryer.(*MultiOpQueryer).Subscribe | local chan struct{} of queryer.(*MultiOpQueryer).Subscribe | close":                  {1, "on the error return only, never sent on"},
 	"queryer.(*MultiOpQueryer).Subscribe$2 | local chan error of queryer.(*MultiOpQueryer).Subscribe | send":                    {-1, "exactly one handshake result per run: every send is followed by the reader's return or by the read loop, none lies in a cycle and none is reachable from another (computed: singleShotSends), so the number of failure exits that send is layout"},
-	"queryer.(*MultiOpQueryer).Subscribe$2 | subscriptionEntry.respCh | send":                                                   {6, "events, upstream error payloads (list form, single-object form) and the reason why the stream ends (connection lost, undecodable frame, error frame without an error), in arrival order"},
-	"queryer.(*MultiOpQueryer).Subscribe$2$1 | subscriptionEntry.respCh | send":                                                 {1, "nil = upstream finished; sent only when the handshake had succeeded (somebody listens); inside a deferred function with nested recover"},
+	"queryer.(*MultiOpQueryer).Subscribe$2 | subscriptionEntry.respCh | send":                                                   {-2, "events, upstream error payloads (list form, single-object form) and the reason why the stream ends (connection lost, undecodable frame, error frame without an error), in arrival order"},
+	"queryer.(*MultiOpQueryer).Subscribe$2$1 | subscriptionEntry.respCh | send":                                                 {-2, "nil = upstream finished; sent only when the handshake had succeeded (somebody listens); inside a deferred function with nested recover"},
 }
 
 // chanOwnership: channels whose closer is not their only sender — reason or finding.
@@ -205,7 +205,14 @@ func ruleChannels(r *Run) {
 		}
 		nk := f + " | " + parts[1]
 		if old, ok := proto[nk]; ok {
-			old.N += e.N
+			if old.N < 0 || e.N < 0 {
+				// computed entries (one-shot / protected stream) stay what they are
+				if e.N < old.N {
+					old.N = e.N
+				}
+			} else {
+				old.N += e.N
+			}
 			if !strings.Contains(old.Reason, e.Reason) {
 				old.Reason += " | " + e.Reason
 			}
@@ -249,7 +256,16 @@ func ruleChannels(r *Run) {
 		}
 		seen[key]++
 		site := r.P.pos(op.ins.Pos())
-		if e, ok := chanProtocolN[key]; ok && e.N < 0 {
+		if e, ok := chanProtocolN[key]; ok && e.N == -2 {
+			// a stream of values from one goroutine to a consumer that closes the channel when it
+			// stops listening: any number of send sites, each of them covered by a recover of the
+			// sending goroutine (R8a.own)
+			if r.recoverProtected(op.ins) {
+				r.Tabled(rule, fnName(op.fn), op.kind+" "+op.ch, site, "chanProtocol", e.Reason)
+			} else {
+				r.Bad(rule, fnName(op.fn), op.kind+" "+op.ch, site, "a send on a channel that its consumer closes when it stops listening is not covered by a deferred recover of the sending goroutine: a value handed over at that moment panics (`send on closed channel`) and ends the process")
+			}
+		} else if ok && e.N < 0 {
 			// a one-shot channel: any number of send sites, at most one of them on a run
 			if r.singleShotSends(op.ch, ops) {
 				r.Tabled(rule, fnName(op.fn), op.kind+" "+op.ch, site, "chanProtocol", e.Reason)
@@ -320,7 +336,7 @@ func ruleChannels(r *Run) {
 				if op.ch != ch || (op.kind != "send" && op.kind != "select-send") || fnName(op.fn) == closer {
 					continue
 				}
-				if !recoverProtected(op.ins) {
+				if !r.recoverProtected(op.ins) {
 					unprotected = r.P.pos(op.ins.Pos())
 					break
 				}
@@ -346,7 +362,9 @@ func ruleChannels(r *Run) {
 // recoverProtected: the instruction is dominated by a `defer func(){ … recover() … }()` of its
 // own function, where recover is called directly by the deferred literal (a recover called
 // one level deeper would not stop the panic).
-func recoverProtected(ins ssa.Instruction) bool {
+func (r *Run) recoverProtected(ins ssa.Instruction) bool { return r.recoverProtectedD(ins, 0) }
+
+func (r *Run) recoverProtectedD(ins ssa.Instruction, depth int) bool {
 	fn := ins.Parent()
 	for _, i2 := range allInstrs(fn) {
 		d, ok := i2.(*ssa.Defer)
@@ -362,6 +380,9 @@ func recoverProtected(ins ssa.Instruction) bool {
 		// recovered panic would leave it locked). (Second table audit: these were assumed.)
 		recovers, repanics := false, false
 		for _, i3 := range allInstrs(lit) {
+			if _, isPanic := i3.(*ssa.Panic); isPanic {
+				repanics = true // go/ssa lowers panic(x) to an instruction of its own (third audit)
+			}
 			if c, ok := i3.(ssa.CallInstruction); ok {
 				if b, ok := c.Common().Value.(*ssa.Builtin); ok {
 					switch b.Name() {
@@ -385,7 +406,27 @@ func recoverProtected(ins ssa.Instruction) bool {
 			return true
 		}
 	}
-	return false
+	// not protected here: a helper or a local literal that runs synchronously in its callers'
+	// goroutine is protected when every place that calls it is (`se.requestStop()` under
+	// Close's deferred recover; a local `report := func(…){ ch <- … }` called in the reader)
+	if depth >= 3 {
+		return false
+	}
+	n := 0
+	for _, e := range r.P.CG.In[fn] {
+		if e.Kind == "param" {
+			continue
+		}
+		site, ok := e.Site.(*ssa.Call)
+		if !ok {
+			return false // started with go, or deferred: another goroutine or another moment
+		}
+		if !r.recoverProtectedD(site, depth+1) {
+			return false
+		}
+		n++
+	}
+	return n > 0
 }
 
 // singleShotSends: no send on ch lies in a cycle and none is reachable from another.
@@ -398,6 +439,11 @@ func (r *Run) singleShotSends(ch string, ops []chanOp) bool {
 	}
 	for _, a := range sends {
 		if blockInCycle(a.Block()) {
+			return false
+		}
+		// all sends in one function: a send from another literal (a deferred function of the
+		// sender) runs after the sender's own and cannot be ordered against it here
+		if a.Parent() != sends[0].Parent() {
 			return false
 		}
 		for _, b := range sends {
@@ -444,7 +490,7 @@ func ruleConnWriters(r *Run) {
 				continue
 			}
 			n := calleeName(ci.Common())
-			if !connWriters[n] {
+			if !connWriters[n] && !wsIOCall(ci.Common()) {
 				continue
 			}
 			// which connection: client side (server-role writes, handler package) or upstream
@@ -560,7 +606,7 @@ func ruleConnWriters(r *Run) {
 				var where []string
 				locked := true
 				for _, s := range ctxs[c] {
-					isReply := strings.Contains(calleeName(s.ins.(ssa.CallInstruction).Common()), "wsutil.Read")
+					isReply := strings.Contains(calleeName(s.ins.(ssa.CallInstruction).Common()), ".Read")
 					if isReply != (kind != "write to ") {
 						continue
 					}
@@ -905,27 +951,60 @@ func ruleUpstreamForward(r *Run) {
 			if !ok {
 				continue
 			}
-			bo, ok := iff.Cond.(*ssa.BinOp)
-			if !ok || bo.Op != token.EQL {
-				continue
+			errConst := func(fnc *ssa.Function, x ssa.Value) string {
+				bo, ok := x.(*ssa.BinOp)
+				if !ok || bo.Op != token.EQL {
+					return ""
+				}
+				for _, v := range []ssa.Value{bo.X, bo.Y} {
+					if k, ok := v.(*ssa.Const); ok && k.Value != nil && (k.Value.ExactString() == `"error"` || k.Value.ExactString() == `"connection_error"`) {
+						return k.Value.ExactString()
+					}
+				}
+				return ""
 			}
-			which := ""
-			for _, v := range []ssa.Value{bo.X, bo.Y} {
-				if k, ok := v.(*ssa.Const); ok && k.Value != nil && (k.Value.ExactString() == `"error"` || k.Value.ExactString() == `"connection_error"`) {
-					which = k.Value.ExactString()
+			which := errConst(fn, iff.Cond)
+			if c, ok := iff.Cond.(*ssa.Call); ok && which == "" {
+				// the test moved into a predicate of the module (`isUpstreamFailure(frame.Type)`)
+				if sc := c.Call.StaticCallee(); sc != nil && inModule(sc) && sc.Blocks != nil && len(returnsOf(sc)) > 0 {
+					for _, i3 := range allInstrs(sc) {
+						if v, ok := i3.(ssa.Value); ok {
+							if w := errConst(sc, v); w != "" {
+								which = w + " (through " + fnName(sc) + ")"
+							}
+						}
+					}
 				}
 			}
 			if which == "" {
 				continue
 			}
 			nErr++
+			// what is sent has to say that something failed: a response built here with its
+			// Errors filled in (the frame's own payload read as a response carries none)
 			okFwd, _ := mustPass(iff.Block().Succs[0], 0, func(i ssa.Instruction) bool {
-				_, isSend := i.(*ssa.Send)
-				return isSend
+				snd, isSend := i.(*ssa.Send)
+				if !isSend {
+					return false
+				}
+				al, ok := unwrap(snd.X).(*ssa.Alloc)
+				if !ok {
+					return false
+				}
+				for _, ref := range *al.Referrers() {
+					if fa, ok := ref.(*ssa.FieldAddr); ok && fieldOf(fa) != nil && fieldOf(fa).Name() == "Errors" {
+						for _, r2 := range *fa.Referrers() {
+							if st, ok := r2.(*ssa.Store); ok && st.Addr == ssa.Value(fa) && !isNilConst(unwrap(st.Val)) {
+								return true
+							}
+						}
+					}
+				}
+				return false
 			})
 			r.Check(okFwd, "R12b.err", fnName(fn), "upstream "+which+" frame forwarded", r.P.pos(iff.Cond.Pos()),
-				"the frame's payload is sent on the result channel before the reader returns",
-				"an upstream frame of type "+which+" ends the reader without anything being sent on the result channel: the subscriber is told nothing — no error, no completion — and its connection stays open")
+				"a response with its errors filled in is sent on the result channel before the reader returns",
+				"an upstream frame of type "+which+" ends the reader without a response that carries an error being sent on the result channel: the subscriber is told nothing — no error, no completion — or gets an event with neither data nor errors")
 		}
 	}
 	r.AtLeast("R12b.err", "upstream error-frame cases in the reader", nErr, 1)
@@ -964,32 +1043,32 @@ func ruleUpstreamForward(r *Run) {
 					}
 					nList++
 					guarded := false
+					sameList := func(v ssa.Value) bool {
+						l2, ok := unwrap(v).(*ssa.UnOp)
+						if !ok || l2.Op != token.MUL {
+							return false
+						}
+						s2, ok := l2.X.(*ssa.FieldAddr)
+						return ok && s2.X == src.X && s2.Field == src.Field
+					}
 					for _, i2 := range allInstrs(fn) {
-						c, ok := i2.(*ssa.Call)
+						iff, ok := i2.(*ssa.If)
 						if !ok {
 							continue
 						}
-						if b, isB := c.Call.Value.(*ssa.Builtin); !isB || b.Name() != "len" {
+						// which side of the branch is only taken for a non-empty list
+						pos, neg := nonEmptyTest(iff.Cond, sameList, 0)
+						var side *ssa.BasicBlock
+						switch {
+						case pos:
+							side = iff.Block().Succs[0]
+						case neg:
+							side = iff.Block().Succs[1]
+						default:
 							continue
 						}
-						l2, ok := unwrap(c.Call.Args[0]).(*ssa.UnOp)
-						if !ok || l2.Op != token.MUL {
-							continue
-						}
-						s2, ok := l2.X.(*ssa.FieldAddr)
-						if !ok || s2.X != src.X || s2.Field != src.Field {
-							continue
-						}
-						for _, u := range *c.Referrers() {
-							bo, ok := u.(*ssa.BinOp)
-							if !ok {
-								continue
-							}
-							for _, u2 := range *bo.Referrers() {
-								if iff, ok := u2.(*ssa.If); ok && iff.Block().Dominates(snd.Block()) {
-									guarded = true
-								}
-							}
+						if len(side.Preds) == 1 && (side == snd.Block() || side.Dominates(snd.Block())) {
+							guarded = true
 						}
 					}
 					r.Check(guarded, "R12b.err.empty", fnName(fn), "decoded error list handed on", r.P.pos(snd.Pos()),
@@ -1000,6 +1079,43 @@ func ruleUpstreamForward(r *Run) {
 		}
 	}
 	r.AtLeast("R12b.err.empty", "decoded error lists handed on by the reader", nList, 1)
+	// R12b.end: the reader tells Listen that the stream is over (a nil response) on EVERY way
+	// out, not only when the upstream says `complete`: the send sits in a function the reader
+	// defers before anything can make it return (third audit: moved into the `complete` case,
+	// a dropped upstream connection left Listen waiting for ever)
+	nEnd := 0
+	for _, fn := range withClosures(sub) {
+		for _, ins := range allInstrs(fn) {
+			snd, ok := ins.(*ssa.Send)
+			if !ok || !isNilConst(unwrap(snd.X)) || !strings.Contains(snd.Chan.Type().String(), "requests.Response") {
+				continue
+			}
+			nEnd++
+			good := false
+			if parent := fn.Parent(); parent != nil {
+				for _, i2 := range allInstrs(parent) {
+					d, ok := i2.(*ssa.Defer)
+					if !ok {
+						continue
+					}
+					mc, _ := d.Call.Value.(*ssa.MakeClosure)
+					if (d.Call.StaticCallee() == fn) || (mc != nil && mc.Fn == ssa.Value(fn)) {
+						all := true
+						for _, ret := range returnsOf(parent) {
+							if !instrDominates(d, ret) {
+								all = false
+							}
+						}
+						good = all
+					}
+				}
+			}
+			r.Check(good, "R12b.end", fnName(fn), "end of stream signalled on every exit", r.P.pos(snd.Pos()),
+				"the nil response is sent by a function the reader defers ahead of all its returns",
+				"the reader signals the end of the stream (nil response) only on some of its exits: when it leaves another way — the upstream connection drops, a frame cannot be decoded — Listen keeps waiting for a stream that is over, and the subscription and its goroutines stay behind")
+		}
+	}
+	r.AtLeast("R12b.end", "end-of-stream signals of the reader", nEnd, 1)
 }
 
 // ruleSubscriptionRegistry (R8e): an entry is put into the per-connection subscription
@@ -1054,4 +1170,127 @@ func ruleSubscriptionRegistry(r *Run) {
 		}
 	}
 	r.AtLeast(rule, "insertions into the subscription dictionary", n, 1)
+}
+
+// nonEmptyTest classifies a condition over a list: pos = "true only if the list is non-empty",
+// neg = "false only if the list is non-empty". It understands len(list) compared with 0 or 1,
+// negation, and a predicate of the module whose answer can be true only behind such a test of
+// its parameter (`func carriesErrors(l) bool { return len(l) != 0 && … }`).
+func nonEmptyTest(cond ssa.Value, isList func(ssa.Value) bool, depth int) (pos, neg bool) {
+	if depth > 3 {
+		return false, false
+	}
+	switch c := cond.(type) {
+	case *ssa.UnOp:
+		if c.Op == token.NOT {
+			p, n := nonEmptyTest(c.X, isList, depth+1)
+			return n, p
+		}
+	case *ssa.BinOp:
+		lenOf := func(v ssa.Value) bool {
+			cl, ok := v.(*ssa.Call)
+			if !ok {
+				return false
+			}
+			b, ok := cl.Call.Value.(*ssa.Builtin)
+			return ok && b.Name() == "len" && isList(cl.Call.Args[0])
+		}
+		op, x, y := c.Op, c.X, c.Y
+		if lenOf(y) { // constant on the left: mirror
+			x, y = y, x
+			switch op {
+			case token.LSS:
+				op = token.GTR
+			case token.GTR:
+				op = token.LSS
+			case token.LEQ:
+				op = token.GEQ
+			case token.GEQ:
+				op = token.LEQ
+			}
+		}
+		if !lenOf(x) {
+			return false, false
+		}
+		switch {
+		case op == token.NEQ && isIntConst(y, 0), op == token.GTR && isIntConst(y, 0), op == token.GEQ && isIntConst(y, 1):
+			return true, false
+		case op == token.EQL && isIntConst(y, 0), op == token.LSS && isIntConst(y, 1), op == token.LEQ && isIntConst(y, 0):
+			return false, true
+		}
+	case *ssa.Call:
+		sc := c.Call.StaticCallee()
+		if sc == nil || !inModule(sc) || sc.Blocks == nil {
+			return false, false
+		}
+		for i, a := range c.Call.Args {
+			if !isList(a) || i >= len(sc.Params) {
+				continue
+			}
+			param := sc.Params[i]
+			isParam := func(v ssa.Value) bool { return unwrap(v) == ssa.Value(param) }
+			// the block of the predicate that is entered only for a non-empty parameter
+			for _, ins := range allInstrs(sc) {
+				iff, ok := ins.(*ssa.If)
+				if !ok {
+					continue
+				}
+				p, n := nonEmptyTest(iff.Cond, isParam, depth+1)
+				var ok2 *ssa.BasicBlock
+				if p {
+					ok2 = iff.Block().Succs[0]
+				} else if n {
+					ok2 = iff.Block().Succs[1]
+				}
+				if ok2 == nil || len(ok2.Preds) != 1 {
+					continue
+				}
+				all := true
+				for _, ret := range returnsOf(sc) {
+					if !trueOnlyAfter(retVals(ret)[0], ok2, 0) {
+						all = false
+					}
+				}
+				if all {
+					return true, false
+				}
+			}
+			// `return len(l) != 0` without a branch
+			for _, ret := range returnsOf(sc) {
+				if p, _ := nonEmptyTest(retVals(ret)[0], isParam, depth+1); p && len(returnsOf(sc)) == 1 {
+					return true, false
+				}
+			}
+		}
+	}
+	return false, false
+}
+
+// wsIOCall: any function of gobwas/ws or gobwas/ws/wsutil that reads or writes frames on a
+// connection it is handed (an argument whose type has a Write method): the table above names
+// the ones in use; WriteMessage, the binary variants, ReadFrame … do the same.
+func wsIOCall(c *ssa.CallCommon) bool {
+	sc := c.StaticCallee()
+	if sc == nil || sc.Pkg == nil {
+		return false
+	}
+	path := sc.Pkg.Pkg.Path()
+	if path != "github.com/gobwas/ws" && path != "github.com/gobwas/ws/wsutil" {
+		return false
+	}
+	name := sc.Name()
+	if !(strings.HasPrefix(name, "Write") || strings.HasPrefix(name, "Read") || strings.HasPrefix(name, "Control") || strings.HasPrefix(name, "Send")) {
+		return false
+	}
+	for _, a := range c.Args {
+		t := a.Type()
+		if it, ok := t.Underlying().(*types.Interface); ok {
+			for i := 0; i < it.NumMethods(); i++ {
+				if it.Method(i).Name() == "Write" {
+					return true
+				}
+			}
+		}
+	}
+	return false
 }
